@@ -96,6 +96,22 @@ def run_unit(uid, overrides=None):
             elif r != 'unsat':
                 live_end += 1
         res['probes'].append({'probe': 'some-path-end-reachable', 'ok': live_end > 0, 'count': live_end})
+        # every executed loop body must end in a state that is not refutable (else its inv.preserve obligations are vacuous)
+        dead = []
+        for dec, pc in eng.body_ends:
+            s = z3.Solver()
+            s.set('auto_config', False)
+            s.set('smt.mbqi', False)
+            s.set('timeout', 1500)
+            for _, a in axioms:
+                s.add(a)
+            for f in pc:
+                s.add(f)
+            if str(s.check()) == 'unsat':
+                dead.append(dec)
+        if eng.body_ends:
+            res['probes'].append({'probe': 'loop-body-ends-reachable', 'ok': not dead, 'count': len(eng.body_ends) - len(dead),
+                                  'dead': dead[:5]})
         if vcs:
             s = solve.smt2_of(vcs[-1], axioms)
             res['sample_smt2'] = {'name': vcs[-1].name, 'text': s[-3000:]}
